@@ -36,6 +36,8 @@ func val(b []byte) string {
 
 var classes = []string{"random", "zero", "leadzero", "maxid", "id0"}
 
+var rsaTypes = map[string]bool{"RsaSsaPkcs1": true, "RsaSsaPss": true, "JwtRsaSsaPkcs1": true, "JwtRsaSsaPss": true}
+
 // allClasses: a replay executes every material class whatever the tier
 var allClasses bool
 
@@ -134,6 +136,13 @@ func doCase(n int, c kpCase, rawP json.RawMessage) []vt.Ev {
 			}
 			keys = append(keys, doKey(c, kind, class, params, int64(n)*64+int64(ci)))
 		}
+		// RSA key types, 2048 bits, e = 65537: the special shapes of the embedded key table (unbalanced primes, CRT values
+		// and d with leading zero bytes) -- every tier
+		if rsaTypes[c.Kt] && c.P.Int("modulusBits") == 2048 && c.P.Int("exponent") == 65537 {
+			for si, shape := range keyfactory.RSAShapes {
+				keys = append(keys, doKey(c, kind, "rsa:"+shape, params, int64(n)*64+int64(8+si)))
+			}
+		}
 	}
 	return []vt.Ev{ev, {"ev": "keys", "n": n, "kt": c.Kt, "p": rawP, "rep": c.Rep, "keys": keys}}
 }
@@ -148,7 +157,7 @@ func idStr(id uint32, has bool) string {
 func doKey(c kpCase, kind, class string, params key.Parameters, stream int64) map[string]any {
 	r := map[string]any{"kind": kind, "mc": class, "id": none, "built": false, "ser": false, "url": "", "prefix": "", "material": "",
 		"idreq": none, "value": "", "parse": false, "equal": false, "equalRev": false, "ser2": false, "url2": "", "prefix2": "",
-		"material2": "", "idreq2": none, "value2": "", "serEqual": false, "ksbin": "n/a", "ksjson": "n/a", "panic": false}
+		"material2": "", "idreq2": none, "value2": "", "serEqual": false, "ksbin": "n/a", "ksjson": "n/a", "ksinfo": "n/a", "panic": false}
 	var k key.Key
 	var err error
 	if try(func() {
@@ -186,6 +195,8 @@ func doKey(c kpCase, kind, class string, params key.Parameters, stream int64) ma
 	}) {
 		r["panic"] = true
 	}
+	// a handle that holds the key must be able to describe itself: KeysetInfo() / String() serialize every key
+	r["ksinfo"] = handleInfo(k)
 	// public route: keyset.Manager.AddKey + insecurecleartextkeyset.Write/Read (binary and JSON)
 	for _, f := range []string{"ksbin", "ksjson"} {
 		if try(func() { r[f] = keysetRoute(k, f == "ksjson") }) {
@@ -193,6 +204,40 @@ func doKey(c kpCase, kind, class string, params key.Parameters, stream int64) ma
 		}
 	}
 	return r
+}
+
+// handleInfo puts the key into a handle (Manager.AddKey, SetPrimary, Handle) and calls KeysetInfo() and String():
+// "ok", "panic", or the step before them that failed.
+func handleInfo(k key.Key) string {
+	var h *keyset.Handle
+	step := ""
+	if try(func() {
+		m := keyset.NewManager()
+		id, err := m.AddKey(k)
+		if err != nil {
+			step = "AddKey failed"
+			return
+		}
+		if err := m.SetPrimary(id); err != nil {
+			step = "SetPrimary failed"
+			return
+		}
+		if h, err = m.Handle(); err != nil {
+			step = "Handle failed"
+		}
+	}) {
+		return "panic before KeysetInfo"
+	}
+	if step != "" {
+		return step
+	}
+	if try(func() { _ = h.KeysetInfo() }) {
+		return "panic"
+	}
+	if try(func() { _ = h.String() }) {
+		return "panic"
+	}
+	return "ok"
 }
 
 // keysetRoute returns "equal", "different", or the step that failed.
